@@ -15,7 +15,9 @@ import (
 	"log"
 	"net"
 	"net/http"
+	"net/url"
 	"reflect"
+	"regexp"
 	"runtime"
 	"strings"
 	"sync"
@@ -29,6 +31,8 @@ import (
 
 	"verifharness/fakeconn"
 	"verifharness/mon"
+	"verifharness/ref"
+	"verifharness/xport"
 )
 
 // spec of one session (a client and a server talking over an in-memory duplex).
@@ -111,6 +115,70 @@ func (t *transcript) add(format string, a ...interface{}) {
 	t.mu.Lock()
 	t.lines = append(t.lines, fmt.Sprintf(format, a...))
 	t.mu.Unlock()
+}
+
+// greets: the server of this session sends a message of its own right behind the handshake response.
+func greets(s spec) bool { return s.server == 0 && !s.wss }
+
+func greeting(s spec) []byte {
+	return []byte(fmt.Sprintf("greeting for session %d: %s", s.id, strings.Repeat(string(rune('a'+s.id%26)), 20+s.id%200)))
+}
+
+var sideKeyRe = regexp.MustCompile(`(?i)Sec-WebSocket-Key: ([A-Za-z0-9+/=]{24})`)
+
+// sideDial runs one more client handshake against a scripted peer whose (valid) response is padded with
+// bytes that look nothing like a frame.
+func sideDial(s spec, t *transcript) {
+	sc := &fakeconn.Script{Plan: xport.Plan{Kind: "whole"}}
+	sc.Respond = func(written []byte) []byte {
+		m := sideKeyRe.FindSubmatch(written)
+		if m == nil {
+			return []byte("HTTP/1.1 400 Bad\r\n\r\n")
+		}
+		return []byte("HTTP/1.1 101 Switching Protocols\r\nUpgrade: websocket\r\nConnection: Upgrade\r\nSec-WebSocket-Accept: " + ref.Accept(string(m[1])) + "\r\nX-Fill: " + strings.Repeat("#", 600+s.id%300) + "\r\n\r\n")
+	}
+	u, _ := url.ParseRequestURI("ws://side.example/ctl")
+	br, _, err := ws.Dialer{}.Upgrade(sc, u)
+	if br != nil {
+		ws.PutReader(br)
+	}
+	t.add("C side dial err=%v", err)
+}
+
+// coalesceConn holds the first write (the handshake response) back until the next one, so that both reach
+// the peer in one piece, as they do when a server answers and greets in one TCP segment.
+type coalesceConn struct {
+	net.Conn
+	mu   sync.Mutex
+	held []byte
+	done bool
+}
+
+func (c *coalesceConn) Write(p []byte) (int, error) {
+	c.mu.Lock()
+	defer c.mu.Unlock()
+	if !c.done && c.held == nil {
+		c.held = append([]byte{}, p...)
+		return len(p), nil
+	}
+	if !c.done {
+		c.done = true
+		if _, err := c.Conn.Write(append(c.held, p...)); err != nil {
+			return 0, err
+		}
+		return len(p), nil
+	}
+	return c.Conn.Write(p)
+}
+
+func (c *coalesceConn) Close() error {
+	c.mu.Lock()
+	if !c.done && c.held != nil {
+		c.done = true
+		c.Conn.Write(c.held) // a refused handshake: the error response still goes out
+	}
+	c.mu.Unlock()
+	return c.Conn.Close()
 }
 
 func protoOf(s spec) string { return fmt.Sprintf("proto-%d.v%d", s.seed%7, s.seed%3) }
@@ -389,7 +457,16 @@ func runSession(s spec) *transcript {
 				}
 				conn = tc
 			}
+			if greets(s) {
+				conn = &coalesceConn{Conn: conn}
+			}
 			hs, err := u.Upgrade(conn)
+			if err == nil && greets(s) {
+				// the server speaks first: its greeting leaves in the same burst as the 101 response
+				if gerr := wsutil.WriteServerMessage(conn, ws.OpText, greeting(s)); gerr != nil {
+					t.add("S greeting error")
+				}
+			}
 			serve(s, conn, hs, err, t)
 		}()
 	}
@@ -434,6 +511,27 @@ func runSession(s spec) *transcript {
 		cc.Close()
 		<-sdone
 		return t
+	}
+	if greets(s) {
+		// frames sent with the response sit in the buffer Dial returned; other sessions shake hands in the
+		// meantime (and take their read buffers from the same pool) before this one gets round to reading it
+		for i := 0; i < 1+s.id%5; i++ {
+			runtime.Gosched()
+		}
+		if s.id%4 != 0 {
+			// ... and this very goroutine dials a second connection (a control channel, say) before it
+			// looks at the first greeting: that handshake takes ITS read buffer from the pool as well
+			sideDial(s, t)
+		}
+		var src io.Reader = conn
+		if br != nil {
+			src = br
+		}
+		g, gop, gerr := wsutil.ReadServerData(struct {
+			io.Reader
+			io.Writer
+		}{src, conn})
+		t.add("C greeting op=%x ok=%v err=%v", gop, bytes.Equal(g, greeting(s)), gerr)
 	}
 	if br != nil {
 		ws.PutReader(br)
